@@ -531,6 +531,12 @@ func DenseDataSet(rng *rand.Rand, graphs, size int, numeric bool) bq.Data {
 		for _, l := range VLits[:8] {
 			objs = append(objs, triple.NewLiteralObject(l))
 		}
+		// numbers that only differ beyond float64 / six-decimal precision
+		for _, l := range ExtremeLits {
+			if rng.Intn(2) == 0 {
+				objs = append(objs, triple.NewLiteralObject(l))
+			}
+		}
 	}
 	d := bq.Data{}
 	for gi := 0; gi < graphs; gi++ {
